@@ -8,6 +8,101 @@ import (
 
 // TestDebugEnum prints, for one catalogue program, every single-preemption schedule whose history
 // contains a failed read (development aid; not part of any check).
+func TestDebugPairs(t *testing.T) {
+	if os.Getenv("VERIF_DEBUG") == "" {
+		t.Skip()
+	}
+	var prog Case
+	for _, p := range c06Catalogue() {
+		if p.Deep {
+			prog = p
+		}
+	}
+	prog.Light = true
+	n, inter, late := 0, 0, 0
+	runs, _ := EnumBounded(2, 0, 1, func(pre [][2]int) ([]int, bool) {
+		c := prog
+		c.Sched = Schedule{Preempt: pre}
+		var cands []int
+		CountCands = &cands
+		CountWorkingOnly = true
+		run := Execute(c, false)
+		CountCands = nil
+		CountWorkingOnly = false
+		var hs []string
+		tget, oget := "", ""
+		for _, h := range run.Hist {
+			if h.Client == 1 && h.K == "get" {
+				tget = fmt.Sprint(h.Got)
+			}
+			if h.Client == 2 && h.K == "get" {
+				oget = string(h.Err)
+			}
+			hs = append(hs, h.String())
+		}
+		var wset, tset, tgetOp, ogetOp HOp
+		for _, h := range run.Hist {
+			switch {
+			case h.Client == 0 && h.K == "set":
+				wset = h
+			case h.Client == 1 && h.K == "set":
+				tset = h
+			case h.Client == 1 && h.K == "get":
+				tgetOp = h
+			case h.Client == 2 && h.K == "get":
+				ogetOp = h
+			}
+		}
+		interesting := wset.Call < tset.Call && wset.Ret > tset.Ret
+		if interesting {
+			inter++
+		}
+		_ = tgetOp
+		_ = ogetOp
+		interesting = interesting && ogetOp.Call > tset.Ret && ogetOp.Ret < tgetOp.Call
+		if interesting {
+			late++
+		}
+		if interesting && n < 4 {
+			n++
+			fmt.Println(pre, "T.get =", tget, "O.get =", oget)
+			for _, h := range hs {
+				fmt.Println("    ", h)
+			}
+		}
+		return cands, true
+	})
+	fmt.Println("runs", runs, "with T.set inside W.set:", inter, "and T.get after W.set returned:", late)
+}
+
+func TestDebugPair2(t *testing.T) {
+	if os.Getenv("VERIF_DEBUG") == "" {
+		t.Skip()
+	}
+	var prog Case
+	for _, p := range c06Catalogue() {
+		if p.Deep {
+			prog = p
+		}
+	}
+	prog.Light = true
+	k1 := 19
+	for k2 := k1 + 1; k2 < k1+45; k2++ {
+		for c := 0; c < 2; c++ {
+			cs := prog
+			cs.Sched = Schedule{Preempt: [][2]int{{k1, 0}, {k2, c}}}
+			run := Execute(cs, false)
+			s := ""
+			for _, h := range run.Hist {
+				if h.Client >= 0 {
+					s += fmt.Sprintf(" | c%d %s[%d..%d]", h.Client, h.K, h.Call, h.Ret)
+				}
+			}
+			fmt.Println(k2, c, s)
+		}
+	}
+}
+
 func TestDebugEnum(t *testing.T) {
 	if os.Getenv("VERIF_DEBUG") == "" {
 		t.Skip()
@@ -26,6 +121,31 @@ func TestDebugEnum(t *testing.T) {
 			for _, h := range run.Hist {
 				if h.K == "get" && h.Err != "ok" && h.Client >= 0 || os.Getenv("VERIF_DEBUG") == "all" && h.Client >= 0 {
 					fmt.Println(k, c, h)
+				}
+			}
+		}
+	}
+}
+
+// TestDebugFindKnown prints the single preemptions under which the Begin-vs-collector catalogue
+// program shows a failed snapshot read (development aid for refreshing the known-finding replay).
+func TestDebugFindKnown(t *testing.T) {
+	if os.Getenv("VERIF_DEBUG") == "" {
+		t.Skip()
+	}
+	prog := c08Catalogue()[3]
+	var cands []int
+	CountCands = &cands
+	Execute(prog, false)
+	CountCands = nil
+	for k := 0; k < len(cands); k++ {
+		for c := 0; c < cands[k]-1; c++ {
+			cs := prog
+			cs.Sched = Schedule{Preempt: [][2]int{{k, c}}}
+			run := Execute(cs, false)
+			for _, h := range run.Hist {
+				if h.K == "get" && h.Slot == 1 && h.Err != "ok" {
+					fmt.Println("FOUND", k, c, h)
 				}
 			}
 		}
